@@ -44,8 +44,8 @@ MUTANTS = [
      "        # run changed value callback\n        self._run_callbacks('on_value_change')\n        if index is not None: self._run_callbacks('on_value_change')"),
     ('M08', 'C04', 'resize() restores the status it had before re-storing the value',
      'fxpmath/objects.py',
-     "                self.set_val(utils.shift_raw(_old_val, self.n_frac - _old_n_frac, self.config.overflow == 'wrap'), raw=True)\n        else:",
-     "                _st = dict(self.status)\n                self.set_val(utils.shift_raw(_old_val, self.n_frac - _old_n_frac, self.config.overflow == 'wrap'), raw=True)\n                self.status.update({k: _st[k] for k in ('overflow', 'underflow', 'inaccuracy')})\n        else:"),
+     "                self.set_val(utils.shift_raw(_old_val, self.n_frac - _old_n_frac), raw=True)\n        else:",
+     "                _st = dict(self.status)\n                self.set_val(utils.shift_raw(_old_val, self.n_frac - _old_n_frac), raw=True)\n                self.status.update({k: _st[k] for k in ('overflow', 'underflow', 'inaccuracy')})\n        else:"),
     ('M09', 'C02', 'resize() computes n_int as if the word were always signed',
      'fxpmath/objects.py',
      "        # n_int    \n        self.n_int = self.n_word - self.n_frac - (1 if self.signed else 0)",
@@ -76,8 +76,8 @@ MUTANTS = [
      "            if hasattr(self, k):\n                if '_' + k in self.__dict__:\n                    self.__dict__['_' + k] = v\n                else:\n                    setattr(self, k, v)"),
     ('M18', 'C10', 'equal() narrows the source raw value with an integer shift (always floor)',
      'fxpmath/objects.py',
-     "            new_val_raw = utils.shift_raw(x.val, self.n_frac - x.n_frac, self.config.overflow == 'wrap')\n            self.set_val(new_val_raw, raw=True, index=index)",
-     "            if self.n_frac >= x.n_frac:\n                new_val_raw = utils.shift_raw(x.val, self.n_frac - x.n_frac, self.config.overflow == 'wrap')\n            else:\n                new_val_raw = x.val // 2**(x.n_frac - self.n_frac)\n            self.set_val(new_val_raw, raw=True, index=index)"),
+     "            new_val_raw = utils.shift_raw(x.val, self.n_frac - x.n_frac)\n            self.set_val(new_val_raw, raw=True, index=index)",
+     "            if self.n_frac >= x.n_frac:\n                new_val_raw = utils.shift_raw(x.val, self.n_frac - x.n_frac)\n            else:\n                new_val_raw = x.val // 2**(x.n_frac - self.n_frac)\n            self.set_val(new_val_raw, raw=True, index=index)"),
     ('M32', 'C20', '__getitem__ sorts a list index in place (the caller\'s index container is modified)',
      'fxpmath/objects.py',
      "        y = Fxp(like=self)\n        y.val = self.val[index]\n        return y",
